@@ -217,7 +217,7 @@ def main(argv):
                 return 1
             return 0
 
-        nsess = 150 if tier == "quick" else 1500
+        nsess = 150 if tier == "quick" else 5000
         sessions = [gen_session(seed, i, tier) for i in range(nsess)]
         # regression corpus
         import glob
